@@ -565,6 +565,8 @@ func execS(in ref.Instr, xs []tensor.Tensor, scrib *[]func()) (tensor.Tensor, er
 		return Leaf(ref.New(in.Shape, in.Data), in.Tracked)
 	case "full":
 		return tensor.Full(ref.CopyInts(in.Shape), in.F, Conf(in.Tracked))
+	case "eye":
+		return tensor.Eye(in.Dim, Conf(in.Tracked))
 	case "slice":
 		return xs[0].Slice(Ranges(in.Index))
 	case "patch":
